@@ -53,12 +53,21 @@ def offending_commands(ctx, known_term="[]"):
     return sorted(set(out))
 
 
+def _stale(props_file):
+    """the property's .vo was not rebuilt after the regenerated graph changed (a proof over it failed)"""
+    vo = os.path.join(core.COQ, props_file + "o")
+    gen = os.path.join(core.COQ, "Gen", "Builders.vo")
+    if not os.path.exists(vo) or not os.path.exists(gen):
+        return True
+    return os.path.getmtime(gen) > os.path.getmtime(vo)
+
+
 def make_extra(prop, spec_of):
     """spec_of() returns the SPEC dict (late binding: the hook is stored inside SPEC)."""
 
     def extra(ctx):
         spec = spec_of()
-        if core.vo_fresh(spec["props_file"]) or not core.vo_fresh("Gen/Builders.v"):
+        if not _stale(spec["props_file"]) or not core.vo_fresh("Gen/Builders.v"):
             return []
         focus = []
         try:
